@@ -40,6 +40,39 @@ def run(ctx):
                 cur.append(ev); ctx.mark((K.hex(), blk.hex()))
         if len(cur) > 150 or ki == len(keys) - 1:
             traces.append(dict(ev=cur)); cur = []
+    # --- generation orders and object lifetimes -----------------------------------------------------------------------------------
+    def network(KT):
+        return wb.WhiteDES(KT, wb.table_M1(), wb.table_M2()[0], wb.table_M3())
+    def probe(wt, K, blocks, note):
+        out = []
+        for blk in blocks:
+            ev = dict(op='wb_enc', key=B(K), blk=B(blk), raised='', obs=[])
+            try: ev['obs'] = B(wt.enc(blk))
+            except Exception as ex: ev['raised'] = type(ex).__name__
+            out.append(ev); ctx.mark((note, K.hex(), blk.hex()))
+        return out
+    few = [bytes(8), b'\xff' * 8, (1 << 63).to_bytes(8, 'big'), (1).to_bytes(8, 'big'), rb(8), rb(8)]
+    cur = []
+    try:
+        Ka, Kb, Kc = rb(8), rb(8), bytes.fromhex('0123456789abcdef')
+        # (1) the tables of three keys generated round by round in turns (round outer, key inner), one of them in descending round order
+        KTs = {k: [None] * 16 for k in (Ka, Kb, Kc)}
+        for r in range(16):
+            for k in (Ka, Kb): KTs[k][r] = wb.table_rKT(r, Bits(k, 64))[1]
+            KTs[Kc][15 - r] = wb.table_rKT(15 - r, Bits(Kc, 64))[1]
+        for k in (Ka, Kb, Kc): cur += probe(network(KTs[k]), k, few, 'interleaved generation')
+        # (2) ONE key object edited in place between two generations
+        KB = Bits(Ka, 64); KT1 = [wb.table_rKT(r, KB)[1] for r in range(16)]
+        KB[0:64] = Bits(Kb, 64); KT2 = [wb.table_rKT(r, KB)[1] for r in range(16)]
+        cur += probe(network(KT1), Ka, few[:3], 'key object edited in place') + probe(network(KT2), Kb, few, 'key object edited in place')
+        # (3) one network object used for many distinct blocks, then asked again for the first ones
+        wt = network(KT1); first = [rb(8) for _ in range(3)]
+        cur += probe(wt, Ka, first, 'long-lived network')
+        for i in range(600 if big else 530): wt.enc(((i * 0x9E3779B97F4A7C15 + 1) & ((1 << 64) - 1)).to_bytes(8, 'big'))
+        cur += probe(wt, Ka, first + [rb(8)], 'long-lived network')
+    except Exception as ex:
+        cur.append(dict(op='wb_tables', key=B(bytes(8)), raised='Harness:' + type(ex).__name__, shape={}, indep={}))
+    traces.append(dict(ev=cur))
     ctx.exhaustive_subspaces.append('per generated table network: all 64 single-bit blocks + zero + ones (+ random); table shape of all 16 x 12 T-boxes')
     ctx.evaluations = sum(len(t['ev']) for t in traces)
     ctx.sample({k: v for k, v in traces[0]['ev'][1].items()}); ctx.sample(dict(op='wb_tables', shape=traces[0]['ev'][0]['shape']))
